@@ -4,4 +4,4 @@ Require Import ExtrOcamlBasic.
 From Coq Require Import ZArith.
 Require Import XV.SerLegacyDefs.
 (* Z.of_N only so that the type z exists for ocaml/conv.ml *)
-Extraction "extracted/serLegacy_model.ml" lg_document lg_this_tree lg_write_content lg_write_attr lg_write_cdata Z.of_N.
+Extraction "extracted/serLegacy_model.ml" lg_document lg_this_tree lg_chk_this_tree lg_comment lg_pi lg_write_content lg_write_attr lg_write_cdata Z.of_N.
